@@ -85,6 +85,42 @@ def gmres_bound(b):
     return max(1e-5 * np.linalg.norm(b), 1e-8) * 1.01
 
 
+def second_full_step(ri, r, method, step1, x0, y0, dt, rho, lb, ub, ss, condF):
+    """Reference for the 2nd full-Newton iteration from z1 = step1.iterate with base point (x0, y0)."""
+    from pygradflow.step.step_solver_error import StepSolverError
+
+    n, m = r.n, r.m
+    x1 = np.array(step1.iterate.x, dtype=float)
+    y1 = np.array(step1.iterate.y, dtype=float)
+    dxL = ri.aug_lag_dx(x1, y1, rho)
+    p = x0 - dt * dxL
+    if np.any(np.abs(p - lb) <= 1e-6) or np.any(np.abs(p - ub) <= 1e-6):
+        return "skip"
+    act = (p < lb) | (p > ub)
+    proj = np.minimum(np.maximum(p, lb), ub)
+    F = np.concatenate([x1 - proj, y1 - (y0 + dt * r.c(x1))])
+    Hxx = ri.aug_lag_dxx(x1, y1, rho)
+    J = r.J(x1)
+    inact = (~act).astype(float)
+    Fp = np.block([[np.eye(n) + inact[:, None] * (dt * Hxx), inact[:, None] * (dt * J.T)], [-dt * J, np.eye(m)]])
+    sv = np.linalg.svd(Fp, compute_uv=False)
+    if sv[-1] <= 0 or sv[0] / sv[-1] > 1e7:
+        return "skip"
+    s2 = np.linalg.solve(Fp, F)
+    xn = np.minimum(np.maximum(x1 - s2[:n], lb), ub)
+    yn = y1 - s2[n:]
+    try:
+        step2 = method.step(step1.iterate)
+    except StepSolverError:
+        return f"{ss}/LU/Full: StepSolverError in the second Newton iteration (cond {sv[0]/sv[-1]:.2e})"
+    err = max(float(np.max(np.abs(step2.iterate.x - xn), initial=0.0)), float(np.max(np.abs(step2.iterate.y - yn), initial=0.0)))
+    allowed = 1e-8 * (sv[0] / sv[-1] + condF) * (1.0 + float(np.linalg.norm(s2, np.inf)))
+    if err > allowed:
+        return (f"{ss}/LU/Full: second Newton iteration (same step-solver object, derivatives re-evaluated at z1) differs from the dense "
+                f"Newton step at z1 by {err:.3e} > {allowed:.3e}; got x+={step2.iterate.x.tolist()} expected {xn.tolist()}")
+    return None
+
+
 def check(case):
     from pygradflow.iterate import Iterate
     from pygradflow.newton import newton_method
@@ -176,6 +212,16 @@ def check(case):
                         labels.append(f"combo_trivial:{ls}")
                         continue
                 results[(ss, ls, nt)] = (got_x.copy(), got_y.copy(), err, allowed)
+                if err <= allowed and nt == "Full" and ls == "LU":
+                    # second iteration of the full Newton method on the *same* method / step-solver object:
+                    # the Newton step of F(. ; z, dt, rho) at z1 (derivatives and active set re-evaluated there)
+                    bad2 = second_full_step(ri, r, method, step, x, y, dt, rho, lb, ub, ss, condF)
+                    if bad2 == "skip":
+                        labels.append("second_step_skipped")
+                    elif bad2 is not None:
+                        return violation(f"second-step-mismatch|{ss}|direct|{'nonlinear' if nonlinear_c else 'affine'}", bad2, labels, sub=sub)
+                    else:
+                        labels.append("second_step_checked")
                 if err > allowed:
                     sig = f"step-mismatch|{ss}|{'direct' if ls == 'LU' else 'iterative'}|{'nonlinear' if nonlinear_c else 'affine'}"
                     return violation(
